@@ -161,6 +161,9 @@ pub fn run_crash(case: &Case) -> RunOutput {
     out.ops = ops;
     out.stats = h.stats.clone();
     out.steps = sim.steps();
+    if sim.inner.deferred_writes.get() > 0 {
+        out.extra.insert("file_writes_completed_later".into(), sim.inner.deferred_writes.get());
+    }
     out.sim_micros = sim.inner.final_sim_micros.get();
     out.trace_hash = format!("{:016x}", sim.trace_hash());
     out.harness_error = error;
